@@ -87,13 +87,13 @@ func (f fr) apply(v bval) bval {
 	switch f.K {
 	case "path":
 		e := &os.PathError{Op: "open", Path: f.Pre, Err: v.val}
-		return bval{"PathError(" + v.name + ")", e, "(BPath " + h.Str("open "+f.Pre) + " " + v.coq + ")"}
+		return bval{"PathError(" + v.name + ")", e, "(BPath true " + h.Str("open "+f.Pre) + " " + v.coq + ")"}
 	case "link":
 		e := &os.LinkError{Op: "rename", Old: f.Pre, New: "/b", Err: v.val}
-		return bval{"LinkError(" + v.name + ")", e, "(BPath " + h.Str("rename "+f.Pre+" /b") + " " + v.coq + ")"}
+		return bval{"LinkError(" + v.name + ")", e, "(BPath false " + h.Str("rename "+f.Pre+" /b") + " " + v.coq + ")"}
 	case "syscall":
 		e := os.NewSyscallError(f.Pre, v.val)
-		return bval{"SyscallError(" + v.name + ")", e, "(BPath " + h.Str(f.Pre) + " " + v.coq + ")"}
+		return bval{"SyscallError(" + v.name + ")", e, "(BPath true " + h.Str(f.Pre) + " " + v.coq + ")"}
 	case "wrap":
 		e := fmt.Errorf("%s: %w", f.Pre, v.val)
 		return bval{"wrapped(" + v.name + ")", e, "(apply_frame (FWrap " + h.Str(f.Pre) + ") " + v.coq + ")"}
@@ -120,6 +120,8 @@ var frameSets = [][]fr{
 	{{"wrap", "while testing"}, {"path", "/x/y"}},
 	{{"path", "/x/y"}, {"wrap", "layer"}},
 	{{"path", "/x/y"}, {"path", "/z"}},
+	{{"syscall", "read"}, {"link", "/a"}},
+	{{"path", "/x/y"}, {"wrap", "layer"}, {"syscall", "read"}},
 	{{"wrap", "outer"}, {"wrap", "middle"}, {"wrap", "inner"}},
 	{{"joinl", "noise"}, {"wrap", "while testing"}, {"syscall", "write"}},
 	{{"wrap", "a"}, {"joinl", "b"}, {"wrap", "c"}, {"path", "/p"}},
@@ -175,9 +177,6 @@ func outcome(e error) string {
 	return strings.Join(names, "+")
 }
 
-// errnoTimeoutOnly: conditions the filesystem converter recognises through os.IsTimeout only
-func errnoTimeoutOnly(base bval) bool { return base.name == "errno(11)" || base.name == "errno(110)" }
-
 func runBackend(r *h.Run, bs backendScenario, emit bool) {
 	var base *bval
 	for _, b := range baseValues() {
@@ -221,9 +220,6 @@ func runBackend(r *h.Run, bs backendScenario, emit bool) {
 		// one stable kind: the same outcome as for the bare condition, at any wrapping depth
 		if isBackendCondition(*base) && outcome(out) != outcome(bare) {
 			sig := "converter-wrapping:" + cv.name
-			if cv.name == "fs" && errnoTimeoutOnly(*base) {
-				sig = "converter-wrapping:fs:errno-timeout"
-			}
 			r.Fail(sig, fmt.Sprintf("%s converter maps %s to %s but %s (%q) to %s", cv.name, base.name, outcome(bare), v.name, v.val.Error(), outcome(out)), sc)
 			continue
 		}
@@ -265,15 +261,17 @@ func runValues(r *h.Run) {
 
 func backendSweep(r *h.Run) {
 	bases := baseValues()
-	// the known finding first: an errno that only os.IsTimeout recognises loses its kind under a %w wrapper
+	// first the input that failed before fixes/C11-timeout-through-wrapping.patch: an errno only os.IsTimeout recognised
 	runBackend(r, backendScenario{Base: "errno(110)", Frames: []fr{{"wrap", "while testing"}}}, true)
 	runValues(r)
-	for _, b := range bases {
-		for _, fs := range frameSets {
-			runBackend(r, backendScenario{Base: b.name, Frames: fs}, true)
+	for bi, b := range bases {
+		for fi, fs := range frameSets {
+			// every frame stack for the backend conditions; the commonerrors kinds (not backend conditions) rotate
+			emit := isBackendCondition(b) || errors.Is(b.val, context.Canceled) || errors.Is(b.val, context.DeadlineExceeded) || r.Thorough() || (bi+fi)%6 == 0
+			runBackend(r, backendScenario{Base: b.name, Frames: fs}, emit)
 		}
 	}
-	n := r.N(150, 4000)
+	n := r.N(100, 4000)
 	pres := []string{"while testing", "layer", "/tmp/some file", "read", "x", "cleanup", "step 3 of 7"}
 	ks := []string{"path", "link", "syscall", "wrap", "wrap", "joinl"}
 	for i := 0; i < n; i++ {
@@ -282,7 +280,7 @@ func backendSweep(r *h.Run) {
 		for d := r.Rng.Intn(6); d > 0; d-- {
 			fs = append(fs, fr{ks[r.Rng.Intn(len(ks))], pres[r.Rng.Intn(len(pres))]})
 		}
-		runBackend(r, backendScenario{Base: b.name, Frames: fs}, i < r.N(150, 600))
+		runBackend(r, backendScenario{Base: b.name, Frames: fs}, i < r.N(100, 600))
 	}
 }
 
